@@ -28,8 +28,7 @@ gen("MC_A", "as is: two workers race for two peers, one lost connection", "Spec"
 gen("MC_B", "as is: two Peers(ctx) callers against one worker and Discard", "Spec", P2, 1, W1, '{"c1", "c2"}', 1, 2, 1, 0, 0, 2, tail=V + HOLD)
 gen("MC_C", "as is: back-off of two ticks, a failing dial, an inbound connection, three rounds, GC", "Spec", P2, 1, W1, "{}", 2, 3, 1, 1, 1, 0, tail=V + HOLD)
 gen("MC_D", "as is: three peers for a limit of two (the soft limit is overshot)", "Spec", P3, 2, W2, "{}", 1, 2, 0, 0, 0, 0, tail=V + HOLD)
-gen("MC_E", "as is, thorough: two workers, a caller, three rounds, a lost and an inbound connection", "Spec", P2, 2, W2, '{"c1"}', 1, 3, 1, 1, 0, 1, tail=V + HOLD)
-gen("MC_F", "as is, thorough: three peers, limit two, a caller, a lost connection, a failing dial", "Spec", P3, 2, W2, '{"c1"}', 1, 3, 1, 0, 1, 1, tail=V + HOLD)
+gen("MC_E", "as is, thorough: two workers, a caller, a lost connection", "Spec", P2, 2, W2, '{"c1"}', 1, 2, 1, 0, 0, 1, tail=V + HOLD)
 gen("MC_api", "a bare limitedSet: concurrent Add (two threads), Remove, two Peers(ctx) callers, cancellation", "Spec", P2, 1, W2,
     '{"c1", "c2"}', 1, 1, 0, 0, 0, 3, api=4, gc=False, direct=True, tail=V + "INVARIANTS TypeOK PeersResult\n")
 
